@@ -8,6 +8,8 @@ import GenlmModel.Proofs.Sem2
 import GenlmModel.Proofs.Sem2Bin
 import GenlmModel.Proofs.Sem2Null
 import GenlmModel.Proofs.Sem2Unary
+import GenlmModel.Proofs.LimTransforms
+import GenlmModel.Proofs.LimTransforms2
 /-! # C06 — transformations preserve the weighted language
 Level identities / cofinality statements about the mirror models, every commutative semiring. -/
 namespace Genlm.Props.C06
@@ -42,4 +44,25 @@ alias unary_closure_from_prefixed_point := Genlm.UW_le_of_prefixed
 /-- unary-cycle removal, relative to the block closures -/
 alias unarycycleremove_preserves := Genlm.ucycle_preserves
 alias unarycycleremove_limit := Genlm.ucycle_limit
+
+/-! ## at the limit (ℝ≥0∞): the TRUE weighted language `WL` (sum over all, possibly infinitely many, derivation trees) -/
+alias trim_limit := Genlm.trim_WL
+alias cotrim_limit := Genlm.cotrim_WL
+alias separate_start_limit := Genlm.separateStart_WL
+alias separate_terminals_true_limit := Genlm.separateTerminals_WL
+alias binarize_true_limit := Genlm.binarize_WL
+alias unfold_true_limit := Genlm.unfold_WL
+alias renaming_limit := Genlm.rename_WL
+alias rule_order_limit := Genlm.perm_WL
+/-- removal of empty rules with the TRUE null weights (sums over infinitely many ε-derivations; no attainment hypothesis) -/
+alias nullary_removal_true_limit := Genlm.pushNull_WL
+alias nullary_removal_true_limit_start := Genlm.pushNull_WL_start
+/-- removal of unary rules with the TRUE closure of the unary graph (cyclic unary parts included), no hypothesis -/
+alias unary_removal_true_limit := Genlm.unaryRemove_WL
+/-- removal of unary cycles with the true block closures -/
+alias unary_cycle_removal_true_limit := Genlm.ucycle_WL
+/-- THE pipeline theorem: the model of `cnf()` with true null weights and true unary closure yields a grammar in CNF with
+exactly the weighted language of the input — every string, the empty one included -/
+alias cnf_correct_limit := Genlm.cnfL_correct
+alias cnf_preserves_limit := Genlm.cnfL_WL
 end Genlm.Props.C06
